@@ -22,3 +22,20 @@ M("c07.config-raw-substitution", "C07", "behave/configuration.py",
   'placeholder_value = "{0}".format(config_tag_expression)',
   'placeholder_value = config_tags if isinstance(config_tags, six.string_types) else " ".join(config_tags)')
 # (a variant printing "not a" without parentheses is semantically equivalent -- not a property break)
+
+# ---- C08 -------------------------------------------------------------------
+M("c08.tilde-not-normalised", "C08", TE + "v1.py", "elif tag.startswith('~'):\n            tag = '-' + tag[1:]",
+  "elif tag.startswith('~~'):\n            tag = '-' + tag[1:]")
+M("c08.any-all-swapped", "C08", TE + "v1.py", "return all(any(test_tag(xtag) for xtag in ors)  for ors in self.ands)",
+  "return any(all(test_tag(xtag) for xtag in ors)  for ors in self.ands)")
+M("c08.autodetect-two-words-v2", "C08", TE + "builder.py", "elif contains_v1_keywords or len(words) > 1:",
+  "elif contains_v1_keywords or len(words) > 2:")
+M("c08.mixed-error-removed", "C08", TE + "builder.py", "if contains_v1_prefixes and contains_v2_keywords:",
+  "if False and contains_v1_prefixes and contains_v2_keywords:")
+M("c08.neg-at-prefix-dropped", "C08", TE + "v1.py", "elif tag.startswith('-@') or tag.startswith('~@'):\n            tag = '-' + tag[2:]",
+  "elif tag.startswith('-@'):\n            tag = '-' + tag[2:]")
+M("c08.limit-kept-in-tag", "C08", TE + "v1.py", "tag_with_negation = tag.pop(0)", "tag_with_negation = ':'.join(tag) if negated else tag[0]; tag.pop(0)")
+M("c08.prefix-check-first-word-only", "C08", TE + "builder.py",
+  "v1_tags = [tag for word in words for tag in word.split(\",\")]", "v1_tags = words[:1]")
+M("c08.v1-string-not-split", "C08", TE + "builder.py", "tag_expression_parts = tag_expression_parts.split()",
+  "tag_expression_parts = [tag_expression_parts]")
